@@ -136,6 +136,10 @@ def build(inst):
             x0[j] = L - 1e-7
         elif p == "slightU" and U is not None:
             x0[j] = U + 1e-7
+    if inst.get("x0far"):
+        # minimiser very far from the start (badly scaled problem): the trust-region radius grows to its cap
+        d = rng.normal(size=n)
+        x0 = c + float(inst["x0far"]) * d / np.linalg.norm(d)
     sets = make_sets(inst, c)
     if sets and inst.get("x0feas", "in") != "in":
         # place x0 relative to the convex sets
@@ -165,7 +169,7 @@ def build(inst):
     if inst.get("scaling"):
         kw["scaling_within_bounds"] = True
     if inst.get("npt"):
-        kw["npt"] = {"n+1": n + 1, "2n+1": 2 * n + 1, "mid": n + 1 + max(1, n // 2), "n+2": n + 2}[inst["npt"]] if isinstance(inst["npt"], str) else int(inst["npt"])
+        kw["npt"] = {"n+1": n + 1, "2n+1": 2 * n + 1, "mid": n + 1 + max(1, n // 2), "n+2": n + 2, "full": (n + 1) * (n + 2) // 2}[inst["npt"]] if isinstance(inst["npt"], str) else int(inst["npt"])
     ns = inst.get("nsamples", "1")
     if ns == "2":
         kw["nsamples"] = lambda delta, rho, it, nruns: 2
